@@ -275,6 +275,14 @@ func (r *Run) classifyMapLoop(l *mapLoop) (class, arg string) {
 					continue // effects confined to the objects of this entry (class K by extension)
 				}
 				effects++
+				if sc := x.Call.StaticCallee(); sc != nil && origin(sc) == origin(l.fn) {
+					// the loop's own function, called for the children of the element (recursion
+					// over a tree): the effects are those of this loop again, under whatever
+					// name the function goes by
+					kind(selfRecursionKind)
+					bad("call of " + calleeDesc(&x.Call) + " at " + r.P.pos(x.Pos()) + " (the function calls itself) whose effects are not summarised")
+					continue
+				}
 				kind("call:" + calleeDesc(&x.Call))
 				if sc := x.Call.StaticCallee(); sc != nil && inModule(sc) && sc.Blocks != nil {
 					if l.kindFn == nil {
@@ -1564,6 +1572,9 @@ func ruleStepListLoops(r *Run) {
 	}
 	r.AtLeast(rule, "loops over plan-step lists", n, 8)
 }
+
+// selfRecursionKind: the effect kind of a loop that calls the function it stands in.
+const selfRecursionKind = "call:the enclosing function (recursion)"
 
 func kindsAllowed(got, allowed []string) bool { return len(extraKinds(got, allowed)) == 0 }
 
